@@ -131,7 +131,10 @@ impl<T: Read + Seek, S: ReadableShape> Iterator for ShapeIterator<'_, T, S> {
     type Item = Result<S, crate::Error>;
 
     fn next(&mut self) -> Option<Self::Item> {
-        if self.current_pos >= self.file_length {
+        // Without an index the shapes follow each other up to the length declared in the
+        // header. With an index, the index alone tells where the shapes are and how many
+        // there are (they may be stored in any physical order, separated by other bytes).
+        if self.shapes_indices.is_none() && self.current_pos >= self.file_length {
             None
         } else {
             if let Some(pos) = self.seek_to.take() {
